@@ -4,7 +4,7 @@
 # properties on it. Any exit 1 is a false alarm to analyse (or the claim is wrong).
 set -u
 export GOFLAGS=-mod=mod GOPROXY=off GOSUMDB=off GOTOOLCHAIN=local
-V="$(cd "$(dirname "$0")/.." && pwd)"; D="$1"; shift
+V="$(cd "$(dirname "$0")/.." && pwd)"; D="$(realpath "$1")"; shift
 PROPS="${*:-C06 C07 C10 C12 C13 C14 C15 C16 C18 C19}"
 M="$(mktemp -d /tmp/benign.XXXXXX)"; trap 'rm -rf "$M"' EXIT
 git -C /repo archive HEAD | tar -x -C "$M"
